@@ -668,6 +668,9 @@ def gen_batch(rng, tier):
         p['topn'] = 2
     if rng.random() < 0.3:
         p['characterize'] = False
+    if dtype == 'float64' and rng.random() < 0.6:
+        p['noise_size'] = 0          # no Gaussian blur: nothing may alias the caller's frames (they are reused across the runs)
+        p['preprocess'] = True
     tagging = rng.choice(['none', 'none', 'frame_no', 'lossy', 'partial'])
     nos = rng.sample(range(100), nf)
     order = list(range(nf))
@@ -711,6 +714,11 @@ def expected_batch(c, order):
 
 
 def eval_batch(chk, c, procs):
+    res = _eval_batch(chk, c, procs, [np.array(f, copy=True) for f in c['frames']])
+    return res
+
+
+def _eval_batch(chk, c, procs, snapshot):
     import trackpy as tp
     res = dict(what=None)
     for order in (list(range(len(c['frames']))), c['order']):
@@ -752,6 +760,12 @@ def eval_batch(chk, c, procs):
                 res['sig'] = 'batch: not the tagged concatenation of locate per frame (%s)' % what.split(' ')[0]
                 res['procs'], res['order'] = pr, order
                 return res
+    for k, (f, f0) in enumerate(zip(c['frames'], snapshot)):
+        if not np.array_equal(np.asarray(f), f0, equal_nan=True):
+            res['what'] = 'locate / batch modified the caller\'s frame %d in place: later runs on the same frames see another image' % k
+            res['sig'] = 'batch: input frames modified'
+            res['procs'], res['order'] = procs[0], list(range(len(c['frames'])))
+            return res
     return res
 
 
